@@ -37,6 +37,8 @@ struct Case {
     raw_variants: bool,
     /// generic types: `Debug(bound(T: Debug))` instead of the default bounds
     explicit_bound: bool,
+    /// generic types: the parameter is used behind a reference (`<'a, T>`, field type `&'a T`)
+    by_ref: bool,
 }
 
 const TYS: [&str; 4] = ["i32", "&'static str", "f64", "Inner"];
@@ -86,6 +88,10 @@ fn gen(ch: &mut Ch, thorough: bool) -> Option<Case> {
     if explicit_bound && (!generic || entry == Entry::Derive || dev > 1) {
         return None;
     }
+    let by_ref = ch.flag();
+    if by_ref && (!generic || dev > 1) {
+        return None;
+    }
     let raw = ch.flag();
     if raw && (generic || entry == Entry::Derive || dev > 1 || !shape.variants.iter().any(|v| v.kind == SKind::Named && v.n > 0)) {
         return None;
@@ -107,7 +113,7 @@ fn gen(ch: &mut Ch, thorough: bool) -> Option<Case> {
     if generic && dev > 1 && !thorough {
         return None;
     }
-    Some(Case { vector: ch.vector(), shape, marks, generic, entry, raw, via_macro, raw_variants, explicit_bound })
+    Some(Case { vector: ch.vector(), shape, marks, generic, entry, raw, via_macro, raw_variants, explicit_bound, by_ref })
 }
 
 /// replaces the identifier `from` (as a whole word) by `to`
@@ -134,14 +140,14 @@ fn two_transparent(c: &Case) -> bool {
 }
 
 fn item_of(c: &Case) -> ItemDef {
-    let ty = |vi: usize, fi: usize| if c.generic && tyidx(vi, fi) == 0 { "T".to_string() } else { TYS[tyidx(vi, fi)].to_string() };
+    let ty = |vi: usize, fi: usize| if c.generic && tyidx(vi, fi) == 0 { if c.by_ref { "&'a T".to_string() } else { "T".to_string() } } else { TYS[tyidx(vi, fi)].to_string() };
     let attrs = |vi: usize, fi: usize| match c.marks[vi][fi] {
         Mark::Plain => vec![],
         Mark::Ignore => vec!["#[debug(ignore)]".to_string()],
         Mark::Transparent => vec!["#[debug(transparent)]".to_string()],
         Mark::TransparentIgnore => vec!["#[debug(transparent, ignore)]".to_string()],
     };
-    let mut it = c.shape.item(if c.generic { "<T>" } else { "" }, &ty, &attrs);
+    let mut it = c.shape.item(if c.by_ref { "<'a, T>" } else if c.generic { "<T>" } else { "" }, &ty, &attrs);
     it.vis = "pub".into();
     make_fields_pub(&mut it);
     it
@@ -208,7 +214,10 @@ fn build_inner(c: &Case, tier: &str) -> XCase {
         (true, Some(m)) => m,
         _ => format!("{head}\n{}", item.print()),
     };
-    s.push_str(&format!("pub mod dx {{ use derive_ex::{{derive_ex, Ex}}; use super::Inner;\n{definition}\n}}\n"));
+    // the derive_ex'd definition lives alone in a module where a blanket trait offers by-value methods named like the
+    // formatter-builder methods (`finish`, `field`, ..): generated code written in method syntax would pick them up
+    s.push_str(crate::c13::HOSTILE);
+    s.push_str(&format!("pub mod dx {{ use derive_ex::{{derive_ex, Ex}}; use super::Inner; use super::hostile::Hostile as _;\n{definition}\n}}\n"));
     s.push_str(&format!("pub mod tw {{ use super::Inner;\n#[derive(Debug)]\n{}\n}}\n", twin.print()));
     s.push_str("macro_rules! specs { ($e:expr) => { vec![");
     for sp in SPECS {
@@ -216,14 +225,14 @@ fn build_inner(c: &Case, tier: &str) -> XCase {
     }
     s.push_str("] } }\n");
     s.push_str("fn cmp(out: &mut String, a: Vec<String>, b: Vec<String>) { for (x, y) in a.iter().zip(b.iter()) { if x == y { out.push('t') } else { out.push_str(&format!(\"f[{}|{}]\", x, y)) } } out.push(';'); }\n");
-    let g = if c.generic { "<i32>" } else { "" };
+    let g = if c.by_ref { "<'static, i32>" } else if c.generic { "<i32>" } else { "" };
     s.push_str(&format!("pub fn run() -> String {{\n    let mut out = String::new();\n    let mut dxs: Vec<dx::X{g}> = Vec::new();\n    let mut tws: Vec<Box<dyn ::core::fmt::Debug>> = Vec::new();\n"));
     let mut nvals = 0u64;
     for (vi, v) in sh.variants.iter().enumerate() {
         let combos = 1usize << v.n;
         for m in 0..combos {
             let val = |fi: usize| VALS[tyidx(vi, fi)][(m >> fi) & 1].to_string();
-            let args: Vec<String> = (0..v.n).map(val).collect();
+            let args: Vec<String> = (0..v.n).map(|fi| if c.by_ref && tyidx(vi, fi) == 0 { format!("&({})", val(fi)) } else { val(fi) }).collect();
             let path = if sh.is_enum { format!("dx::X::{}", SHAPE_VNAMES[vi]) } else { "dx::X".to_string() };
             let none = |_: usize, _: usize| String::new();
             let noattrs = |_: usize, _: usize| Vec::new();
@@ -255,6 +264,7 @@ fn build_inner(c: &Case, tier: &str) -> XCase {
     atoms.insert(format!("entry={}", c.entry.name()));
     atoms.insert(format!("kind={}", if sh.is_enum { "enum" } else { "struct" }));
     atoms.insert(format!("generic={}", c.generic));
+    atoms.insert(format!("by_ref={}", c.by_ref));
     atoms.insert(format!("raw={}", c.raw));
     atoms.insert(format!("via_macro={}", c.via_macro));
     atoms.insert(format!("raw_variants={}", c.raw_variants));
